@@ -421,7 +421,7 @@ func c16Restore(cs c07Case) string {
 func c16MapOrder(cs c16Case, c *explore.Chooser) core.Outcome {
 	body := c16MapBody(cs.Scenario)
 	vsched.ResetGlobals()
-	ref := body() // default (sorted) order, scheduler inactive
+	ref := body()   // default (sorted) order, scheduler inactive
 	again := body() // without a reset: state kept between calls must not show
 	fail := func(key, f string, a ...interface{}) core.Outcome {
 		return core.Outcome{Key: key + ":" + cs.Scenario, Desc: fmt.Sprintf("scenario %s, map-order choices %v\n", cs.Scenario, c.Choices) + fmt.Sprintf(f, a...)}
